@@ -14,6 +14,7 @@ pub mod c14;
 pub mod c15;
 pub mod c16;
 pub mod c17;
+pub mod c18;
 pub mod c20;
 
 use crate::engine::Ctx;
@@ -44,5 +45,6 @@ pub const PROPS: &[PropDef] = &[
     PropDef { id: "C15", level: "exploration", run: c15::run, shards: 12, isolate: true },
     PropDef { id: "C16", level: "fault_enumeration", run: c16::run, shards: 1, isolate: false },
     PropDef { id: "C17", level: "exploration", run: c17::run, shards: 12, isolate: false },
+    PropDef { id: "C18", level: "exploration", run: c18::run, shards: 12, isolate: false },
     PropDef { id: "C20", level: "exploration", run: c20::run, shards: 8, isolate: false },
 ];
